@@ -278,6 +278,23 @@ theorem div_chain_inner_nullif_missing_counterexample :
     evalC .duckdb (fun i => .int ([8, 0, 2].getD i 0)) (genT false false ⟨true, true⟩ (fun _ => .none) (chainT 2))
       = .inf false := by decide
 
+-- ------------------------------------------------------------------------------------------ transforms.preprocess
+/-- **every transform of the chain reaches every SELECT that is printed** (FINITE: all 8 feature combinations decided
+    completely): whatever combination of DISTINCT ON / QUALIFY / SEMI-ANTI join a SELECT carries, none of the SELECTs
+    the SQLite generator prints for it — wrappers and wrapped — carries any of them any more -/
+theorem preprocess_chain_reaches_every_select :
+    ∀ d ∈ [true, false], ∀ q ∈ [true, false], ∀ s ∈ [true, false],
+      (genSelects 4 ⟨d, q, s⟩).all PFlags.clean = true := by decide
+
+/-- the seeded regression as a witness: QUALIFY together with a SEMI join — the flagged input node is the wrapped
+    subquery, the chain is skipped for it and SEMI JOIN is printed verbatim -/
+theorem preprocess_flag_on_input_node_counterexample :
+    genSelectsFlagged ⟨false, true, true⟩ = [⟨false, false, false⟩, ⟨false, false, true⟩] ∧
+    (genSelects 4 ⟨false, true, true⟩).all PFlags.clean = true := by decide
+
+/-- TABLE FACT (ast of transforms.preprocess._to_sql): the chain runs unconditionally (no memo / early exit) -/
+theorem preprocess_chain_unconditional : preprocessChainUnconditional = true := by decide
+
 -- ------------------------------------------------------------------------------------------ set-operation chains
 /-- **`Generator.set_operations` prints a chain exactly in order**: for every tree of UNION / EXCEPT / INTERSECT
     [ALL] nodes (any shape, any length) the explicit-stack flattening loop emits operand, operator-of-THAT-node,
